@@ -156,6 +156,10 @@ def _terms(tier):
     return _c[tier]
 
 
+def prepare(tier):
+    _terms(tier)
+
+
 def units(tier):
     return gen.chunks(len(_terms(tier)), 60)
 
